@@ -40,7 +40,8 @@ func (r *e1Run) nodeFields(node int) []fieldSpec {
 
 // hiddenField: a field for which the node carries no expectation, because a
 // commit writing it was merged while the node's active version did not have it
-// (the merge legitimately ignores fields unknown to the local version).
+// or any other version it held (the merge legitimately ignores fields unknown to the
+// local versions).
 func (r *e1Run) hiddenField(node, slot int, f string) bool {
 	return r.tainted[fmt.Sprintf("%d/%d/%s", node, slot, f)]
 }
@@ -49,6 +50,14 @@ func (r *e1Run) taintOnMerge(node int, newly map[int]bool) {
 	have := map[string]bool{}
 	for _, f := range r.nodeFields(node) {
 		have[f.Name] = true
+	}
+	if node < len(r.nodeKnown) {
+		// a field of a version the node holds without it being active is merged too
+		for key := range r.nodeKnown[node] {
+			for _, f := range versionFields(key) {
+				have[f.Name] = true
+			}
+		}
 	}
 	for c := range newly {
 		mc := r.commits[c]
